@@ -29,6 +29,9 @@ CHECKS = {
     "C09": (B, "4.9", "real server reply writer -> real client reply reader in one process, every payload length, prefix/monotonicity/floor oracle, ASan on exact-size buffers",
             "held on every executed (query type, codec, name, buffer size, length, content) case: every length 2..4096 in the thorough tier",
             "payload contents are 5 styles; exact set judged per content style"),
+    "C06": (A, "4.6", "ASan/UBSan inside the real iodine client + watchdog + tun-silence monitor, against a model server that turns hostile at a chosen handshake step, hostile tunnel-phase answers, and an on-path spoofer next to the real server",
+            "no sanitizer report, signal or reproduced stall on any executed reply sequence (11 handshake steps x 17 hostile classes x query types x downstream codecs x once/repeated/sticky); packets planted in answers with a non-recent id or foreign first character never reached the client's tun",
+            "a clean sanitizer run is not memory safety; an ordinary client exit is correct; GCC-defined signed '<<' (shift-base) is not counted as UB"),
     "C07": (B, "4.7", "sanitizer-instrumented unit driver with round-trip / alphabet / capacity oracle over enumerated inputs",
             "held on every executed (codec, input, capacity) case: exhaustive for inputs of 0..2 bytes x all capacities, adjacent byte pairs in every block position, every length up to 4096 with capacity sweeps; ASan guards exact-size buffers",
             "alphabet membership from doc/proto_00000502.txt; symbol order within an alphabet not asserted"),
